@@ -162,6 +162,17 @@ package plumbing
 //gvc:  kf F21 accept: exists(i, 0, spec_split_n(d, p, n), spec_split_len(d, p, n, i) == 1 && d[spec_split_off(d, p, n, i)] == '@')
 //gvc:end
 
+// ResetBySize: the id becomes the zero id of the format with that digest
+// size: SHA-256 for 32, the unset format (read and written as SHA-1) otherwise.
+//gvc:func (*ObjectID).ResetBySize
+//gvc:  props C12
+//gvc:  theory int
+//gvc:  requires nn: s != nil
+//gvc:  modifies s.format, s.hash
+//gvc:  ensures fmt: (idSize == 32) == bytes_eq(s.format, "sha256")
+//gvc:  ensures unset: idSize != 32 ==> len(s.format) == 0
+//gvc:end
+
 // ObjectID.ReadFrom: reads Size() bytes of the stream into the id (trusted:
 // io.ReadFull into the id's array).
 //gvc:func (*ObjectID).ReadFrom
